@@ -7,7 +7,7 @@
  *   <k>/<m>    same with mode m (fwrite: 0 = writes nothing, 1 = writes half, 2 = writes all but one byte)
  *   M          every mremap is forced to MOVE the mapping (legal: the library passes MREMAP_MAYMOVE); the old range
  *              disappears, so a stale pointer faults
- *   G          non-executable mappings (the text of a file, mapped or copied) are placed flush against a PROT_NONE page (reading past the last mapped page faults
+ *   G          every mapping the library creates (text of a file, code buffer, also after a growth) gets a PROT_NONE page right behind it (reading past the last mapped page faults
  *              deterministically instead of depending on what happens to be mapped next)
  */
 #define _GNU_SOURCE
@@ -39,6 +39,29 @@ static int plan_idx[MAXPLAN], plan_mode[MAXPLAN];
 static char trace[4096];
 static size_t tlen;
 
+/* mappings created by the library (in-API mmap / mremap): munmap must name exactly one of them */
+#define MAXMAP 64
+static void *map_addr[MAXMAP];
+static size_t map_len[MAXMAP];
+static int nmap;
+static void map_add(void *a, size_t n) {
+  if (a != MAP_FAILED && nmap < MAXMAP) {
+    map_addr[nmap] = a;
+    map_len[nmap] = n;
+    nmap++;
+  }
+}
+static long map_find(void *a) {
+  for (int i = 0; i < nmap; i++)
+    if (map_addr[i] == a) return i;
+  return -1;
+}
+static void map_del(long i) {
+  map_addr[i] = map_addr[nmap - 1];
+  map_len[i] = map_len[nmap - 1];
+  nmap--;
+}
+
 static void tput(const char *s) {
   size_t n = strlen(s);
   if (tlen + n + 1 < sizeof trace) {
@@ -50,6 +73,7 @@ static void tput(const char *s) {
 
 void hxw_reset(void) {
   in_api = counter = nplan = force_move = guard_files = 0;
+  nmap = 0;
   tlen = 0;
   trace[0] = 0;
 }
@@ -119,14 +143,17 @@ void *__wrap_mmap(void *addr, size_t len, int prot, int flags, int fd, off_t off
     errno = ENOMEM;
     return MAP_FAILED;
   }
-  if (in_api && guard_files && !(prot & PROT_EXEC) && len > 0) { /* text buffers (file or anonymous), never the code buffer */
+  if (in_api && guard_files && len > 0) { /* every mapping the library creates gets a PROT_NONE page right behind it */
     size_t body = (len + PAGE - 1) / PAGE * PAGE;
     char *res = __real_mmap(NULL, body + PAGE, PROT_NONE, MAP_PRIVATE | MAP_ANONYMOUS, -1, 0);
     if (res == MAP_FAILED) return MAP_FAILED;
     void *m = __real_mmap(res, len, prot, flags | MAP_FIXED, fd, off);
+    map_add(m, len);
     return m;
   }
-  return __real_mmap(addr, len, prot, flags, fd, off);
+  void *m = __real_mmap(addr, len, prot, flags, fd, off);
+  if (in_api) map_add(m, len);
+  return m;
 }
 
 void *__wrap_mremap(void *old, size_t old_size, size_t new_size, int flags, ...) {
@@ -134,16 +161,38 @@ void *__wrap_mremap(void *old, size_t old_size, size_t new_size, int flags, ...)
     errno = ENOMEM;
     return MAP_FAILED;
   }
-  if (in_api && force_move && (flags & MREMAP_MAYMOVE)) {
-    void *target = __real_mmap(NULL, new_size, PROT_NONE, MAP_PRIVATE | MAP_ANONYMOUS, -1, 0);
+  void *r;
+  if (in_api && (force_move || guard_files) && (flags & MREMAP_MAYMOVE)) {
+    /* move to a fresh range that also has a PROT_NONE page behind it; the old range disappears */
+    size_t body = (new_size + PAGE - 1) / PAGE * PAGE;
+    char *target = __real_mmap(NULL, body + PAGE, PROT_NONE, MAP_PRIVATE | MAP_ANONYMOUS, -1, 0);
     if (target == MAP_FAILED) return MAP_FAILED;
-    return __real_mremap(old, old_size, new_size, MREMAP_MAYMOVE | MREMAP_FIXED, target);
+    r = __real_mremap(old, old_size, new_size, MREMAP_MAYMOVE | MREMAP_FIXED, target);
+  } else
+    r = __real_mremap(old, old_size, new_size, flags);
+  if (in_api && r != MAP_FAILED) {
+    long i = map_find(old);
+    if (i >= 0) map_del(i);
+    map_add(r, new_size);
   }
-  return __real_mremap(old, old_size, new_size, flags);
+  return r;
 }
 
 int __wrap_munmap(void *p, size_t n) {
-  if (point("munmap") >= 0) {
+  int refused = point("munmap") >= 0;
+  if (in_api) {
+    /* the library may only unmap exactly what it mapped: anything else would tear down foreign memory */
+    long i = map_find(p);
+    if (i < 0 || map_len[i] != n) {
+      in_api = 0;
+      tput(i < 0 ? "BADMUNMAP-unknown-address," : "BADMUNMAP-wrong-length,");
+      in_api = 1;
+      if (i >= 0) n = map_len[i]; /* contain the damage: unmap what really belongs to the library */
+      else return 0;
+    }
+    if (!refused && i >= 0) map_del(i);
+  }
+  if (refused) {
     errno = EINVAL;
     return -1;
   }
